@@ -96,6 +96,40 @@ pub fn check(rep: &mut Rep, d: i128, s1: TimeScale, x: i128) {
             }
         }
     }
+    // "converting to the scale an epoch is already in is the identity": no pivot is involved, so this holds for every
+    // representable count, the bounds and the counts whose TAI pivot is out of range included - through every entry point
+    match guard(|| (e.to_time_scale(s1), named(&e, s1), e.to_duration_in_time_scale(s1))) {
+        Err(p) => rep.fail(&format!("identity/panic/{}", p.class()), None, || format!("({d},{:?}) to its own scale panicked: {} at {}", s1, p.msg, p.loc)),
+        Ok((r, nm, gen)) => {
+            if !in_bounds(t) {
+                rep.class("identity/pivot-out-of-range");
+            }
+            for (name, got) in [("to_time_scale", r.duration), ("named accessor", nm), ("to_duration_in_time_scale", gen)] {
+                if got.to_parts() != canon(d) || r.time_scale != s1 {
+                    rep.fail("identity/value", None, || format!("({d},{:?}) read in its own scale through {name} = {} (tag {:?}), want {}", s1, fmt_parts(got.to_parts()), r.time_scale, fmt_parts(canon(d))));
+                }
+            }
+        }
+    }
+    // the raw-parts constructor with a nanosecond field of one century or more denotes the same instant
+    if in_bounds(t) {
+        let (cc, nn) = canon(t);
+        for k in 1..=5i128 {
+            let raw_ns = nn as i128 + k * NPC;
+            if cc as i128 - k < i16::MIN as i128 || raw_ns > u64::MAX as i128 || t == MAX_NS {
+                break;
+            }
+            match guard(|| Epoch::from_tai_parts((cc as i128 - k) as i16, raw_ns as u64)) {
+                Err(p) => rep.fail(&format!("parts/panic/{}", p.class()), None, || format!("from_tai_parts({}, {}) panicked {}", cc as i128 - k, raw_ns, p.msg)),
+                Ok(g) => {
+                    rep.class("parts/raw-nanoseconds-beyond-one-century");
+                    if g.duration.to_parts() != (cc, nn) || g.time_scale != TimeScale::TAI || g.to_tai_duration().to_parts() != (cc, nn) || g.to_tai_parts() != (cc, nn) {
+                        rep.fail("parts/from_tai_parts-raw", None, || format!("from_tai_parts({}, {}) = {} (to_tai_duration {}), want {}", cc as i128 - k, raw_ns, fmt_parts(g.duration.to_parts()), fmt_parts(g.to_tai_duration().to_parts()), fmt_parts((cc, nn))));
+                    }
+                }
+            }
+        }
+    }
     for s2 in UNIFORM {
         let want = t - zero_tai_ns(s2);
         if !in_bounds(want) || !in_bounds(t) {
